@@ -7,6 +7,11 @@ use tracing_subscriber::EnvFilter;
 
 use lsp::server::Server;
 
+const MAX_CONCURRENT_REQUESTS: std::num::NonZeroUsize = match std::num::NonZeroUsize::new(4096) {
+    Some(n) => n,
+    None => unreachable!(),
+};
+
 #[tokio::main]
 async fn main() {
     #[cfg(unix)]
@@ -25,7 +30,10 @@ async fn main() {
         ServiceBuilder::new()
             .layer(TracingLayer::default())
             .layer(LifecycleLayer::default())
-            .layer(ConcurrencyLayer::default())
+            // async-lsp 0.2 waits for a free concurrency slot without polling the requests that
+            // already finished, so a slot is never given back: with the default limit (the number
+            // of cores) one request more than that in flight hangs the server for good
+            .layer(ConcurrencyLayer::new(MAX_CONCURRENT_REQUESTS))
             .layer(ClientProcessMonitorLayer::new(client.clone()))
             .service(Server::new_router(client))
     });
